@@ -80,6 +80,8 @@ type pubActor struct {
 	cs      []*vfClient
 	chanSub bool // addresses the topic by its channel name
 	obo     *vfUser
+	// attachedAs, when set, is the name under which the session attached acting for somebody else
+	attachedAs string
 }
 
 type pubScn struct {
@@ -370,7 +372,7 @@ func (sc *pubScn) pubStep(a *pubActor, c *vfClient, stepNo int) {
 			row, has = chnRows[author.uid]
 		}
 		switch {
-		case !attach[c][tname]:
+		case !attach[c][tname] && !(a.attachedAs != "" && attach[c][a.attachedAs]):
 			why = "session not attached"
 		case !has:
 			why = "no subscription row"
@@ -771,6 +773,33 @@ func pubScenario(w *vfWorld, r *vfkit.R, focus string, idx int) {
 				r.Hit("publish_after_unsubscribe_same_session")
 				sc.pubStep(a, c, 100)
 				if kind == "p2p" {
+					// a root session attached on behalf of the remaining participant publishes on behalf of the
+					// removed one: the author has no subscription any more
+					var pb *pubActor
+					for _, b := range sc.actors {
+						if b.role == "peerB" {
+							pb = b
+						}
+					}
+					if grpRows, _, _ := sc.rows(); pb != nil && grpRows[a.u.uid].DeletedAt != nil {
+						root := w.user("root", auth.LevelRoot)
+						rc := w.conn(root, false)
+						fr := rc.waitCtrl(rc.send("sub", map[string]any{"topic": sc.canon}, map[string]any{"obo": pb.u.uid.UserId()}), 0, vfReplyWait)
+						w.e.vfQuiesce()
+						sc.log("root attaches on behalf of peerB -> %s, then publishes on behalf of the removed peerA", codeStr(fr))
+						ra := &pubActor{u: root, obo: a.u, role: "rootOboRemoved", cs: []*vfClient{rc}}
+						// the session is attached (on behalf of peerB) under whatever name the reply carried
+						for n := range rc.attachState() {
+							ra.attachedAs = n
+						}
+						sc.actors = append(sc.actors, ra)
+						r.Hit("root_on_behalf_of_removed_author")
+						sc.pubStep(ra, rc, 104)
+						rc.waitCtrl(rc.send("leave", map[string]any{"topic": sc.canon}, map[string]any{"obo": pb.u.uid.UserId()}), 0, vfReplyWait)
+						sc.actors = sc.actors[:len(sc.actors)-1]
+						rc.close()
+						w.e.vfQuiesce()
+					}
 					// the other participant re-creates the removed subscription, its user attaches again: copies
 					// must still name the topic as each recipient addresses it
 					for _, b := range sc.actors {
